@@ -1,6 +1,6 @@
 (** C18 — range facts: decoded fields, the [int] weight sum, Random::nextInt, hashRandoms indices. *)
 From Coq Require Import ZArith NArith List Bool Lia ZifyBool.
-From Texel Require Import Chess.Types gen.PolyglotRandoms Book.Polyglot Book.SearchProofs.
+From Texel Require Import Chess.Types gen.PolyglotRandoms Book.Polyglot Book.PolyglotProofs Book.SearchProofs.
 Import ListNotations.
 Local Open Scope Z_scope.
 
@@ -61,15 +61,37 @@ Proof.
   - apply IH; [assumption | lia | lia].
 Qed.
 
-(** the witness of finding F7: 32769 entries of weight 65535 overflow the accumulator *)
+(** the first loop as executed (it leaves at the first running sum above [sumLimit]) never leaves
+    [int], whatever the number of entries *)
+Lemma loop1InInt_ok : forall legal ents s, Forall weightOk ents ->
+  0 <= s <= sumLimit -> loop1InInt pgWeight legal ents s = true.
+Proof.
+  intros legal ents; induction ents as [|[m c] t IH]; intros s H Hs; cbn [loop1InInt]; [reflexivity|].
+  destruct (containsMove legal m); [|reflexivity].
+  inversion H; subst. unfold weightOk in H2; cbn [snd] in H2. unfold pgWeight in *.
+  rewrite sumLimit_val in *. apply andb_true_iff. split.
+  - unfold inInt, intMax. lia.
+  - destruct (s + c >? 1073741824) eqn:E; [reflexivity|]. rewrite Z.gtb_ltb in E.
+    apply IH; [assumption|lia].
+Qed.
+
+(** when the first loop ran to its end, every prefix sum of the second loop is inside [int] too *)
+Lemma sumsInInt_of_prefixes : forall ents s, Forall weightOk ents ->
+  0 <= s -> prefixesLe pgWeight ents s sumLimit -> sumsInInt pgWeight ents s = true.
+Proof.
+  induction ents as [|[m c] t IH]; intros s H Hs Hp; cbn [sumsInInt prefixesLe snd] in *; [reflexivity|].
+  inversion H; subst. unfold weightOk in H2; cbn [snd] in H2. unfold pgWeight in *.
+  destruct Hp as [Hle Hp]. rewrite sumLimit_val in *. apply andb_true_iff. split.
+  - unfold inInt, intMax. lia.
+  - apply IH; [assumption | lia | exact Hp].
+Qed.
+
+(** the crafted list of the former finding F7: 32769 entries of weight 65535 *)
 Definition f7_entries : list (move * Z) := repeat (mkMove 12%N 28%N 0%N, 65535) (Z.to_nat 32769).
 
-Lemma f7_overflows : Z.of_nat (length f7_entries) = 32769 /\ Forall weightOk f7_entries /\
-                     sumsInInt pgWeight f7_entries 0 = false /\ weightSum pgWeight f7_entries = 2147516415.
+Lemma f7_weightOk : Forall weightOk f7_entries.
 Proof.
-  split; [vm_compute; reflexivity|]. split.
-  - unfold f7_entries. apply Forall_forall. intros x Hx. apply repeat_spec in Hx. subst. unfold weightOk; cbn; lia.
-  - split; vm_compute; reflexivity.
+  unfold f7_entries. apply Forall_forall. intros x Hx. apply repeat_spec in Hx. subst. unfold weightOk; cbn; lia.
 Qed.
 
 (** * Random::nextInt *)
@@ -103,7 +125,25 @@ Proof.
   rewrite Z.rem_small by lia. reflexivity.
 Qed.
 
-(** above 2^30 every trial is rejected: the rejection loop of nextInt never ends *)
+(** each trial of the rejection loop is accepted with probability above one half *)
+Lemma nextIntMaxVal_large : forall sum, 0 < sum <= 1073741824 -> 536870912 < nextIntMaxVal sum <= 1073741824.
+Proof.
+  intros sum Hs. unfold nextIntMaxVal. rewrite nextIntN_val.
+  rewrite Z.quot_div_nonneg by lia.
+  pose proof (Z.div_mod 1073741824 sum ltac:(lia)) as D.
+  pose proof (Z.mod_pos_bound 1073741824 sum ltac:(lia)) as M.
+  assert (1 <= 1073741824 / sum) by (apply Z.div_le_lower_bound; lia).
+  nia.
+Qed.
+
+Lemma nextIntTry_accepts : forall sum u, 0 < sum ->
+  Z.of_N u mod 1073741824 < nextIntMaxVal sum -> nextIntTry sum u <> None.
+Proof.
+  intros sum u Hs H. unfold nextIntTry. rewrite nextInt_mask.
+  destruct (Z.of_N u mod 1073741824 <? nextIntMaxVal sum) eqn:E; [discriminate|lia].
+Qed.
+
+(** above 2^30 every trial would be rejected (why Book::getBookMove gives up above the limit) *)
 Lemma nextIntTry_rejects : forall sum u, 1073741824 < sum -> nextIntTry sum u = None.
 Proof.
   intros sum u Hs. unfold nextIntTry. rewrite nextInt_mask.
